@@ -200,6 +200,14 @@ theorem old_names_kept (l : Layout) (hall : ∀ e ∈ l.entries, AppendClean e) 
   intro e he
   exact (hall e he).1
 
+/-- The name clause of the property as far as it holds (`_partial`): for a base with an unflagged non-ASCII
+name the FULL statement "every old name is kept byte for byte in both records" is false — known finding
+K-A2, kernel-checked witness `C13.ka2_names_disagree_witness`; the decoded name (what this crate's reader
+reports) is kept for every base (`old_fields_kept`). -/
+theorem old_names_kept_partial (l : Layout) (hall : ∀ e ∈ l.entries, AppendClean e) :
+    (appendNormAll l).map Spec.Zip.Entry.name = l.entries.map Spec.Zip.Entry.name :=
+  old_names_kept l hall
+
 /-! ## 4. Reading the appended archive back -/
 
 /-- **`append_read_back`** — the appended archive, read with `ZipArchive::new` (C03 `reader_on_wf`, under
